@@ -487,3 +487,107 @@ Proof.
   cbn. intros [H|[H|[]]]; discriminate.
 Qed.
 Print Assumptions C13_subexpression_two_line_feeds_refuted.
+
+(* ---------------------------------------------------------------------------------------
+   (d) for the quoted literals: the text of a CharList (double quote, 34) / ByteList (apostrophe, 39)
+   token of a successful lex.  Either it is exactly two quote characters (the empty literal: an opening run of exactly
+   two quotes followed by a non-quote or by the end of input), or it is
+        q^n  x body  q^n      with n >= 1, n <> 2, x <> q
+   where [runs_ok q n 0 body] holds: every run of quote characters inside body is shorter than n
+   and body does not end with a quote character.  So the opening run is maximal (x is not a
+   quote), the literal ends at the FIRST place after it where n consecutive quotes occur
+   (nothing is swallowed beyond it: the character after the token is unconstrained and starts
+   a fresh token, even another quote), and nothing is cut short (no shorter run closes it).
+   Backslashes, line feeds and NUL characters are ordinary body characters to the lexer.
+   This is the converse of Proofs.C14.LexSpellingThen.lex_literal_general. *)
+From GV Require Import Proofs.C14.LexSpelling Proofs.C14.LexSpellingThen Proofs.C13.LexMaxGen4 Proofs.C13.LexMaxLit.
+
+Theorem C13_char_list_shape : forall un ua s ts,
+  lex un ua s = Ok ts ->
+  forall pre t post, ts = pre ++ t :: post -> tok_type t = TT_CharList ->
+    tok_text t = [34; 34] \/
+    exists n x body, (1 <= n)%nat /\ n <> 2%nat /\ x <> 34 /\ runs_ok 34 n 0 body = true /\
+                     tok_text t = repeat 34 n ++ (x :: body) ++ repeat 34 n.
+Proof. exact lex_char_list_shape. Qed.
+Print Assumptions C13_char_list_shape.
+
+Theorem C13_byte_list_shape : forall un ua s ts,
+  lex un ua s = Ok ts ->
+  forall pre t post, ts = pre ++ t :: post -> tok_type t = TT_ByteList ->
+    tok_text t = [39; 39] \/
+    exists n x body, (1 <= n)%nat /\ n <> 2%nat /\ x <> 39 /\ runs_ok 39 n 0 body = true /\
+                     tok_text t = repeat 39 n ++ (x :: body) ++ repeat 39 n.
+Proof. exact lex_byte_list_shape. Qed.
+Print Assumptions C13_byte_list_shape.
+
+(* Both directions together ([k] = KChar / KByte, [kq k] = 34 / 39, [kty k] the token type,
+   [literal_text k n b] = q^n b q^n): such a text is lexed as ONE literal token exactly when
+   [runs_ok] holds of its body. *)
+Theorem C13_literal_one_token_iff : forall un ua k n x body, (1 <= n)%nat -> n <> 2%nat -> x <> kq k ->
+  (lex un ua (literal_text k n (x :: body)) = Ok [mkTok (literal_text k n (x :: body)) (kty k) 0 0]
+   <-> runs_ok (kq k) n 0 body = true).
+Proof. exact lex_literal_one_token_iff. Qed.
+Print Assumptions C13_literal_one_token_iff.
+
+(* Below Q stands for the double quote and A for the apostrophe.
+   a Q b \ Q c Q d Q : the backslash does not protect the quote, the literal ends at the first quote;
+   QQQ a QQ b QQQQ x Q : opened by three quotes, the run of two inside is body, the literal ends at
+                 the first run of three; the fourth quote is left over and opens the literal Q x Q;
+   QQ x : exactly two quotes and a non-quote: the empty literal, x is the next token;
+   A a A A b A : two adjacent byte lists, nothing is required of the character after a literal;
+   AAAA 1 AAAA : n = 4;
+   Q LF NUL Q : line feed and NUL are body characters. *)
+Example C13_ex_literal_shape : forall un ua,
+  let show s := match lex un ua s with
+                | Ok ts => Some (map (fun t => (tok_text t, tok_type t)) ts)
+                | _ => None
+                end in
+  show [97; 34; 98; 92; 34; 99; 34; 100; 34] =
+    Some [([97], TT_Identifier); ([34; 98; 92; 34], TT_CharList); ([99], TT_Identifier);
+          ([34; 100; 34], TT_CharList)] /\
+  show [34; 34; 34; 97; 34; 34; 98; 34; 34; 34; 34; 120; 34] =
+    Some [([34; 34; 34; 97; 34; 34; 98; 34; 34; 34], TT_CharList); ([34; 120; 34], TT_CharList)] /\
+  show [34; 34; 120] = Some [([34; 34], TT_CharList); ([120], TT_Identifier)] /\
+  show [39; 97; 39; 39; 98; 39] = Some [([39; 97; 39], TT_ByteList); ([39; 98; 39], TT_ByteList)] /\
+  show [39; 39; 39; 39; 32; 49; 32; 39; 39; 39; 39] =
+    Some [([39; 39; 39; 39; 32; 49; 32; 39; 39; 39; 39], TT_ByteList)] /\
+  show [34; 10; 0; 34] = Some [([34; 10; 0; 34], TT_CharList)].
+Proof. intros. repeat split; vm_compute; reflexivity. Qed.
+
+(* the hypotheses of the two shape theorems are met with the second disjunct: n = 3, x = a,
+   body = QQb (Q the double quote) *)
+Example C13_ex_char_list_shape_instance : forall un ua,
+  exists ts t post, lex un ua [34; 34; 34; 97; 34; 34; 98; 34; 34; 34; 34; 120; 34] = Ok ts /\
+    ts = [] ++ t :: post /\ tok_type t = TT_CharList /\
+    (3 <> 2)%nat /\ 97 <> 34 /\ runs_ok 34 3 0 [34; 34; 98] = true /\
+    tok_text t = repeat 34 3 ++ (97 :: [34; 34; 98]) ++ repeat 34 3.
+Proof.
+  intros. eexists _, _, _. split; [vm_compute; reflexivity|]. split; [reflexivity|].
+  repeat split; try discriminate; vm_compute; reflexivity.
+Qed.
+Example C13_ex_byte_list_shape_instance : forall un ua,
+  exists ts t post, lex un ua [39; 39; 39; 39; 32; 49; 32; 39; 39; 39; 39] = Ok ts /\
+    ts = [] ++ t :: post /\ tok_type t = TT_ByteList /\
+    (4 <> 2)%nat /\ 32 <> 39 /\ runs_ok 39 4 0 [49; 32] = true /\
+    tok_text t = repeat 39 4 ++ (32 :: [49; 32]) ++ repeat 39 4.
+Proof.
+  intros. eexists _, _, _. split; [vm_compute; reflexivity|]. split; [reflexivity|].
+  repeat split; try discriminate; vm_compute; reflexivity.
+Qed.
+
+(* The exclusion n <> 2 is real: the reading that a literal opened by n quotes extends to the next
+   run of n quotes, for every n, is false of the lexer for n = 2.  With Q the double quote, QQaQQ is
+   three tokens (empty literal, identifier, empty literal), not one literal with body a.  Likewise
+   the closing run is not maximal: QQQaQQQQ is not one token: after the first three closing quotes
+   the fourth opens a new literal, which is unterminated (error class 5). *)
+Theorem C13_two_quote_literal_refuted : forall un ua,
+  (exists s n x body, s = repeat 34 n ++ (x :: body) ++ repeat 34 n /\ (1 <= n)%nat /\ x <> 34 /\
+      runs_ok 34 n 0 body = true /\
+      lex un ua s = Ok [mkTok [34; 34] TT_CharList 0 0; mkTok [x] TT_Identifier 0 2; mkTok [34; 34] TT_CharList 0 3]) /\
+  lex un ua [34; 34; 34; 97; 34; 34; 34; 34] = Err E_Unterminated.
+Proof.
+  intros un ua. split; [|vm_compute; reflexivity].
+  exists [34; 34; 97; 34; 34], 2%nat, 97, []. repeat split; try discriminate; try (vm_compute; reflexivity).
+  repeat constructor.
+Qed.
+Print Assumptions C13_two_quote_literal_refuted.
